@@ -158,7 +158,7 @@ Fixpoint leaves (pre : str) (s : schema) : list (str * (ty * aval)) :=
    source on every run.  Theorems are stated for gen_facts and proved for every record satisfying the conditions they need. *)
 Definition expected_steps : list step :=
   [StDecodeDefaults; StMergeDefaults; StDotEnv; StEnvOptions; StMergeFile; StLink; StUnmarshal; StValidate].
-Definition expected_lf : lfacts := mkLF expected_steps false true true false true true true.
+Definition expected_lf : lfacts := mkLF expected_steps false true true false true true true NilSkip NilSkip.
 Definition expected_flagprefix : str := Eval compute in str_of "uniqueprefixforprivateflagbindingkeys123".
 Definition expected_kf : kfacts :=
   mkKF [(DOT, USC)] true true true true (Some USC) true expected_flagprefix DOT (USC, DOT) USC (DOT, USC) true true.
@@ -171,14 +171,14 @@ Definition with_lf (f : facts) (l : lfacts) : facts := mkFacts l (kf f) (nf f) (
 (* the code before the three repairs *)
 Definition steps_link_before_file : list step :=
   [StDecodeDefaults; StMergeDefaults; StDotEnv; StEnvOptions; StLink; StMergeFile; StUnmarshal; StValidate].
-Definition before_repair1 : facts := with_lf expected (mkLF steps_link_before_file false true true false true true true).
-Definition before_repair2 : facts := with_lf expected (mkLF expected_steps false true true true true true true).
+Definition before_repair1 : facts := with_lf expected (mkLF steps_link_before_file false true true false true true true NilSkip NilSkip).
+Definition before_repair2 : facts := with_lf expected (mkLF expected_steps false true true true true true true NilSkip NilSkip).
 Definition before_repair3 : facts :=
   mkFacts expected_lf
           (mkKF [(DOT, USC)] true true true true (Some USC) true (k_flagprefix expected_kf) DOT (USC, DOT) USC (DOT, USC) true false)
           (mkNF true true USC true USC false) expected_vf.
 Definition original : facts :=
-  mkFacts (mkLF steps_link_before_file false true true true true true true) (kf before_repair3) (nf before_repair3) expected_vf.
+  mkFacts (mkLF steps_link_before_file false true true true true true true NilSkip NilSkip) (kf before_repair3) (nf before_repair3) expected_vf.
 
 (* position of a step in LoadFromEnvironment *)
 Fixpoint step_index (x : step) (l : list step) : option nat :=
@@ -252,8 +252,38 @@ Fixpoint prefixes_aux (acc : str) (segs : list str) : list str :=
 Definition ancestors (k : str) : list str := prefixes_aux [] (split DOT k).
 
 (* ---------- the world a load runs in ---------- *)
-(* a flag bound with BindFlagToEnv: (envVar argument, flag type, flag default, Some v = the flag was set to v) *)
-Definition flagspec := (str * ty * aval * option aval)%type.
+(* a member of a set of flags bound to one key with BindFlagsToEnv (BindFlagToEnv: a set of one):
+   MNil = a nil *pflag.Flag (Lookup of an undefined name; newMultiFlags tolerates it),
+   MFlag d s = a defined flag with default d; s = Some v when it was set to v on the command line *)
+Inductive member := MNil | MFlag (d : aval) (s : option aval).
+(* a binding: (envVar argument, type of the flags, members in the order given) *)
+Definition flagspec := (str * ty * list member)%type.
+
+(* multiFlags.HasChanged (service_configuration.go:201-209) *)
+Fixpoint mf_changed (nk : nilk) (ms : list member) : bool :=
+  match ms with
+  | [] => false
+  | MNil :: r => match nk with NilSkip => mf_changed nk r | NilStop => false end
+  | MFlag _ (Some _) :: _ => true
+  | MFlag _ None :: r => mf_changed nk r
+  end.
+(* multiFlags.ValueString (:215-233): the value of a changed member if there is one (the first one: the harness gives
+   several changed members the same value, UniqueEntries goes through a set), else the current value of the LAST non-nil member *)
+Fixpoint mf_first_set (nk : nilk) (ms : list member) : option aval :=
+  match ms with
+  | [] => None
+  | MNil :: r => match nk with NilSkip => mf_first_set nk r | NilStop => None end
+  | MFlag _ (Some a) :: _ => Some a
+  | MFlag _ None :: r => mf_first_set nk r
+  end.
+Fixpoint mf_last_value (nk : nilk) (acc : option aval) (ms : list member) : option aval :=
+  match ms with
+  | [] => acc
+  | MNil :: r => match nk with NilSkip => mf_last_value nk acc r | NilStop => acc end
+  | MFlag d s :: r => mf_last_value nk (Some (match s with Some a => a | None => d end)) r
+  end.
+Definition mf_value (nk : nilk) (ms : list member) : option aval :=
+  match mf_first_set nk ms with Some a => Some a | None => mf_last_value nk None ms end.
 
 Record world := mkW {
   w_prefix : str;
@@ -273,10 +303,18 @@ Definition autoget (f : facts) (w : world) (k : str) : option val :=
   if l_automatic_env (lf f) then getenv f w (autoenv f (w_prefix w) k) else None.
 
 (* BindFlagToEnv: viper.pflags[shortKey] = flag ; viper.env[shortKey] = [cleansedEnvVar] *)
+(* what viper sees of a bound set: (type, ValueString() while nothing changed = the "flag default", Some value iff HasChanged()) *)
+Definition mf_entry (f : facts) (e : ty * list member) : ty * aval * option aval :=
+  let '(t, ms) := e in
+  let v := mf_value (l_multi_value_nil (lf f)) ms in
+  (t, match v with Some a => a | None => zero_of t end,
+   if mf_changed (l_multi_changed_nil (lf f)) ms then v else None).
+Definition bound_members (f : facts) (w : world) : kmap (ty * list member) :=
+  map (fun fl => match fl with (ev, t, ms) => (flagkey_of_short f (short_of f ev (w_prefix w)), (t, ms)) end) (w_flags w).
 Definition bound_flags (f : facts) (w : world) : kmap (ty * aval * option aval) :=
-  map (fun fl => match fl with (ev, t, d, s) => (flagkey_of_short f (short_of f ev (w_prefix w)), (t, d, s)) end) (w_flags w).
+  map (fun e => (fst e, mf_entry f (snd e))) (bound_members f w).
 Definition bound_envs (f : facts) (w : world) : kmap str :=
-  map (fun fl => match fl with (ev, _, _, _) =>
+  map (fun fl => match fl with (ev, _, _) =>
          let sh := short_of f ev (w_prefix w) in (flagkey_of_short f sh, cleanse f (w_prefix w) sh) end) (w_flags w).
 
 (* viper.isPathShadowedInAutoEnv / isPathShadowedInFlatMap *)
